@@ -42,7 +42,9 @@ S = Suite(
     bound="(1..3 towers) x (1..3 steps) incl. 1x1; strategies towers/time/both and the two "
           "serial drivers; workers 1..5; parent thread setting 1 and 4 (parent has solved with "
           "that setting before the fork); cache on/off with footprint, explicit/default halo, "
-          "pre-populated cache, repeated met conditions; 16x16 grid, nz=6, modes (16,16); "
+          "pre-populated cache, repeated met conditions; hash-random per-task delays and the "
+          "adversarial schedule (a worker per task, tasks complete in reverse submission "
+          "order); 16x16 grid, nz=6, modes (16,16); "
           "quick 36 driver calls, thorough 330 (every shape x strategy x worker count x parent "
           "thread setting)",
     rule="1e-12 of the field maximum for grid/conc/flx; == for names, coordinates, "
@@ -101,8 +103,8 @@ def _clear_cache():
 class _Delays:
     """Wrap bldfm.interface.run_bldfm_single with a deterministic per-task sleep (workers only)."""
 
-    def __init__(self, seed, delay_ms):
-        self.seed, self.delay_ms = seed, delay_ms
+    def __init__(self, seed, delay_ms, schedule="hash"):
+        self.seed, self.delay_ms, self.schedule = seed, delay_ms, schedule
 
     def __enter__(self):
         import bldfm.interface as itf
@@ -110,15 +112,25 @@ class _Delays:
         self.orig = orig = itf.run_bldfm_single
         sig = inspect.signature(orig)
         parent = os.getpid()
-        seed, delay_ms = self.seed, self.delay_ms
+        seed, delay_ms, schedule = self.seed, self.delay_ms, self.schedule
 
         def run_bldfm_single(*args, **kwargs):
             if delay_ms and os.getpid() != parent:
                 b = sig.bind(*args, **kwargs)
                 b.apply_defaults()
-                h = zlib.crc32(("%d|%s|%d" % (seed, b.arguments["tower"].name,
-                                              b.arguments["met_index"])).encode())
-                time.sleep((h % 1000) / 1000.0 * delay_ms / 1000.0)
+                if schedule == "reverse":
+                    # adversarial schedule: the EARLIER a task is in configuration / time order,
+                    # the longer it sleeps (one delay unit per rank), so with a worker per task
+                    # the tasks complete in exactly the reverse of their submission order
+                    config, tower = b.arguments["config"], b.arguments["tower"]
+                    names = [t.name for t in config.towers]
+                    rank = (len(names) - 1 - names.index(tower.name)) + \
+                        (config.met.n_timesteps - 1 - b.arguments["met_index"])
+                    time.sleep(rank * delay_ms / 1000.0)
+                else:
+                    h = zlib.crc32(("%d|%s|%d" % (seed, b.arguments["tower"].name,
+                                                  b.arguments["met_index"])).encode())
+                    time.sleep((h % 1000) / 1000.0 * delay_ms / 1000.0)
             return orig(*args, **kwargs)
 
         itf.run_bldfm_single = run_bldfm_single
@@ -155,7 +167,7 @@ def _compare(got, want):
 
 @S.kind("driver")
 def driver(n_towers, n_steps, strategy, workers, parent_threads, use_cache, footprint, halo,
-           repeat_met, prewarm, seed, delay_ms, workers_from_config=False):
+           repeat_met, prewarm, seed, delay_ms, workers_from_config=False, schedule="hash"):
     import bldfm.config as cfg
     import bldfm.interface as itf
     from bldfm.config_parser import parse_config_dict
@@ -178,7 +190,7 @@ def driver(n_towers, n_steps, strategy, workers, parent_threads, use_cache, foot
         cfg.NUM_THREADS = int(parent_threads)
         single(config, config.towers[0], 0)
 
-        with _Delays(seed, delay_ms):
+        with _Delays(seed, delay_ms, schedule):
             if strategy == "timeseries":
                 out = {t.name: itf.run_bldfm_timeseries(config, t) for t in config.towers}
             elif strategy == "multitower":
@@ -243,7 +255,28 @@ def _case(rng, nt, ns, strategy, workers, k, threads=None):
                 delay_ms=[40, 0, 25][k % 3], workers_from_config=(k % 5 == 4))
 
 
+def _reverse_cases(rng, tier):
+    """'any completion order of the workers': the one order a fair scheduler rarely produces -
+    every task finishes before all tasks submitted ahead of it (a worker per task)."""
+    shapes = [(2, 1), (3, 2), (2, 3), (1, 3), (3, 3)] if tier == "thorough" else \
+        [(2, 1), (3, 2), (2, 3), (1, 3)]
+    k = 1
+    for nt, ns in shapes:
+        for strategy in _PAR:
+            if (strategy == "towers" and nt < 2) or (strategy == "time" and ns < 2):
+                continue
+            ntasks = {"towers": nt, "time": ns, "both": nt * ns}[strategy]
+            if tier != "thorough" and strategy != "towers" and (nt, ns) not in ((3, 2), (1, 3)):
+                continue
+            c = _case(rng, nt, ns, strategy, min(ntasks, 6), k, threads=1)
+            c.update(delay_ms=120, schedule="reverse", workers_from_config=False, prewarm=False)
+            yield "driver", c
+            k += 1
+
+
 def generate(tier, rng):
+    for c in _reverse_cases(rng, tier):
+        yield c
     k = 0
     if tier == "thorough":
         shapes = [(a, b) for a in (1, 2, 3) for b in (1, 2, 3)]
